@@ -137,7 +137,7 @@ theorem findNearestIndex_spec (g : List α) (t lo hi : α) (hg : GoodGrid g)
   obtain ⟨hs, hlen⟩ := hg
   have hhi' : g[g.length - 1]? = some hi := by rw [← getLast?_eq_getElem?]; exact hhi
   unfold findNearestIndex
-  rw [hhi]
+  rw [if_neg (by omega), hhi]
   simp only
   by_cases he : eqv t hi = true
   · rw [if_pos he]
@@ -377,44 +377,46 @@ theorem linear2_ok (x y : List α) (f : List (List α)) (p0 p1 : α) (hx : GoodG
     idx2_ok hr (show lx < x.length by omega) (show ly + 1 < y.length by omega),
     idx2_ok hr (show lx + 1 < x.length by omega) (show ly + 1 < y.length by omega)]
 
-/-- `validate2` accepts exactly the well-formed tables -/
+/-- `validate2` accepts exactly the well-formed tables: at least two points per axis, strictly
+increasing, rectangular values -/
 theorem validate2_ok_iff (x y : List α) (f : List (List α)) :
     validate2 x y f = .ok () ↔
-      x ≠ [] ∧ y ≠ [] ∧ strictlyIncreasing x = true ∧ strictlyIncreasing y = true ∧
+      2 ≤ x.length ∧ 2 ≤ y.length ∧ strictlyIncreasing x = true ∧ strictlyIncreasing y = true ∧
         Rect2 f x.length y.length := by
   unfold validate2 Rect2
   by_cases h1 : x.length = 0 ∨ y.length = 0
   · rw [if_pos h1]
     constructor
     · intro h; cases h
-    · rintro ⟨hx, hy, _⟩
-      rcases h1 with h | h
-      · exact absurd (List.length_eq_zero_iff.mp h) hx
-      · exact absurd (List.length_eq_zero_iff.mp h) hy
+    · rintro ⟨hx, hy, _⟩; omega
   · rw [if_neg h1]
-    have hx : x ≠ [] := by
-      intro h; apply h1; left; simp [h]
-    have hy : y ≠ [] := by
-      intro h; apply h1; right; simp [h]
-    by_cases h2 : (strictlyIncreasing x && strictlyIncreasing y) = true
-    · simp only [h2, Bool.not_true, Bool.false_eq_true, if_false]
-      simp only [Bool.and_eq_true] at h2
-      by_cases h3 : (decide (x.length = f.length) && f.all (fun r => decide (r.length = y.length))) = true
-      · simp only [h3, Bool.not_true, Bool.false_eq_true, if_false, true_iff]
-        simp only [Bool.and_eq_true, decide_eq_true_eq, List.all_eq_true] at h3
-        exact ⟨hx, hy, h2.1, h2.2, h3.1.symm, h3.2⟩
-      · simp only [h3, Bool.not_false, if_true]
-        constructor
-        · intro h; cases h
-        · rintro ⟨_, _, _, _, h4, h5⟩
-          exfalso; apply h3
-          simp only [Bool.and_eq_true, decide_eq_true_eq, List.all_eq_true]
-          exact ⟨h4.symm, h5⟩
-    · simp only [h2, Bool.not_false, if_true]
+    by_cases h1' : x.length < 2 ∨ y.length < 2
+    · rw [if_pos h1']
       constructor
       · intro h; cases h
-      · rintro ⟨_, _, h3, h4, _⟩
-        exfalso; apply h2; simp [h3, h4]
+      · rintro ⟨hx, hy, _⟩; omega
+    · rw [if_neg h1']
+      have hx : 2 ≤ x.length := by omega
+      have hy : 2 ≤ y.length := by omega
+      by_cases h2 : (strictlyIncreasing x && strictlyIncreasing y) = true
+      · simp only [h2, Bool.not_true, Bool.false_eq_true, if_false]
+        simp only [Bool.and_eq_true] at h2
+        by_cases h3 : (decide (x.length = f.length) && f.all (fun r => decide (r.length = y.length))) = true
+        · simp only [h3, Bool.not_true, Bool.false_eq_true, if_false, true_iff]
+          simp only [Bool.and_eq_true, decide_eq_true_eq, List.all_eq_true] at h3
+          exact ⟨hx, hy, h2.1, h2.2, h3.1.symm, h3.2⟩
+        · simp only [h3, Bool.not_false, if_true]
+          constructor
+          · intro h; cases h
+          · rintro ⟨_, _, _, _, h4, h5⟩
+            exfalso; apply h3
+            simp only [Bool.and_eq_true, decide_eq_true_eq, List.all_eq_true]
+            exact ⟨h4.symm, h5⟩
+      · simp only [h2, Bool.not_false, if_true]
+        constructor
+        · intro h; cases h
+        · rintro ⟨_, _, h3, h4, _⟩
+          exfalso; apply h2; simp [h3, h4]
 
 /-- `Interpolator::interpolate` on a 2-D interpolator: in range it is `linear2` … -/
 theorem interpolate_d2_in (x y : List α) (f : List (List α)) (p0 p1 : α)
@@ -483,7 +485,9 @@ theorem linspace_good (x0 xend : α) (n : Nat) (hn : 2 ≤ n) (h : x0 < xend) :
 theorem linspace_length (x0 xend : α) (n : Nat) (xs : List α) (h : linspace x0 xend n = .ok xs) :
     xs.length = n := by
   cases n with
-  | zero => cases h
+  | zero =>
+    simp only [linspace, Res.ok.injEq] at h
+    subst h; rfl
   | succ m =>
     simp only [linspace, Res.ok.injEq] at h
     subst h
@@ -591,7 +595,8 @@ theorem new_inv (underlying : α → α → α) (su : SpeedUnit) (s0 s1 : α) (s
     ∃ xs ys, linspace s0 s1 sb = .ok xs ∧ linspace g0 g1 gb = .ok ys ∧
       m = { interp := .d2 xs ys (sgTable underlying ru xs ys), speedUnit := su, gradeUnit := gu,
             energyRateUnit := ru } ∧
-      strictlyIncreasing xs = true ∧ strictlyIncreasing ys = true ∧ xs.length = sb ∧ ys.length = gb := by
+      strictlyIncreasing xs = true ∧ strictlyIncreasing ys = true ∧ xs.length = sb ∧ ys.length = gb ∧
+      2 ≤ sb ∧ 2 ≤ gb := by
   unfold SpeedGradeModel.new at h
   cases hx : linspace s0 s1 sb with
   | ok xs =>
@@ -603,8 +608,10 @@ theorem new_inv (underlying : α → α → α) (su : SpeedUnit) (s0 s1 : α) (s
       | ok u =>
         rw [hv] at h
         simp only [Res.ok.injEq] at h
-        obtain ⟨_, _, h3, h4, _⟩ := (validate2_ok_iff _ _ _).mp hv
-        exact ⟨xs, ys, rfl, rfl, h.symm, h3, h4, linspace_length _ _ _ _ hx, linspace_length _ _ _ _ hy⟩
+        obtain ⟨h1, h2, h3, h4, _⟩ := (validate2_ok_iff _ _ _).mp hv
+        have lx := linspace_length _ _ _ _ hx
+        have ly := linspace_length _ _ _ _ hy
+        exact ⟨xs, ys, rfl, rfl, h.symm, h3, h4, lx, ly, by omega, by omega⟩
       | err e => rw [hv] at h; cases h
       | panic s => rw [hv] at h; cases h
       | diverges => rw [hv] at h; cases h
@@ -625,8 +632,8 @@ theorem new_ok (underlying : α → α → α) (su : SpeedUnit) (s0 s1 : α) (sb
   have hv : validate2 xs ys (sgTable underlying ru xs ys) = .ok () := by
     rw [validate2_ok_iff]
     refine ⟨?_, ?_, gx.1, gy.1, sgTable_rect _ _ _ _⟩
-    · intro h; rw [h] at lx; simp at lx; omega
-    · intro h; rw [h] at ly; simp at ly; omega
+    · omega
+    · omega
   refine ⟨{ interp := .d2 xs ys (sgTable underlying ru xs ys), speedUnit := su, gradeUnit := gu,
             energyRateUnit := ru }, ?_⟩
   unfold SpeedGradeModel.new
@@ -912,6 +919,39 @@ theorem ndEvalRev_eq (get : List Nat → Res α) (G : List Nat → α) :
       congr 1
       exact (hv (fun i => ndValRev G (rt'.map (fun t => (t.1, t.2.1))) (i :: suffix))).symm
 
+theorem isNan_false (v : α) : isNan v = false := by
+  simp [isNan]
+
+/-- in a linear order no value is NaN: the guard of the first pass never fires -/
+theorem ndAnyNaN_eq (get : List Nat → Res α) (G : List Nat → α) :
+    ∀ (rc : List (Cell α)) (rt : List (Nat × α × Nat)), List.Forall₂ CellRel rc rt →
+    ∀ (suffix ssh : List Nat), List.Forall₂ (· < ·) suffix ssh →
+      (∀ ix, List.Forall₂ (· < ·) ix ((rt.map (·.2.2)).reverse ++ ssh) → get ix = .ok (G ix)) →
+      ndAnyNaN get rc suffix = .ok false := by
+  intro rc rt h
+  induction h with
+  | nil =>
+    intro suffix ssh hs hget
+    have := hget suffix (by simpa using hs)
+    simp [ndAnyNaN, this, Res.bind, isNan_false]
+  | @cons c t rc' rt' hct _ ih =>
+    intro suffix ssh hs hget
+    obtain ⟨l, d, s⟩ := t
+    have hget' : ∀ ix, List.Forall₂ (· < ·) ix ((rt'.map (·.2.2)).reverse ++ (s :: ssh)) →
+        get ix = .ok (G ix) := by
+      intro ix hix
+      apply hget
+      simpa [List.map_cons, List.reverse_cons, List.append_assoc] using hix
+    obtain ⟨hl, hc⟩ := hct
+    simp only at hl hc
+    rcases hc with rfl | ⟨pos, rfl, hpos, hv⟩
+    · simp only [ndAnyNaN]
+      rw [ih (l :: suffix) (s :: ssh) (List.Forall₂.cons (by omega) hs) hget',
+        ih ((l + 1) :: suffix) (s :: ssh) (List.Forall₂.cons hl hs) hget']
+      simp [Res.bind]
+    · simp only [ndAnyNaN]
+      exact ih (pos :: suffix) (s :: ssh) (List.Forall₂.cons hpos hs) hget'
+
 /-- what `cellOf` selects (a default where it fails) -/
 def selOf (g : List α) (p : α) : Nat × α :=
   match cellOf g p with
@@ -1079,6 +1119,16 @@ theorem linearN_ok (m : ND α) (G : List Nat → α) (pt : List α) (hv : ValidN
     rw [← this, heval]
   · rw [if_neg hvl, h2]
     simp only [h4, Bool.not_true, Bool.false_eq_true, if_false]
+    have hnan : ndAnyNaN m.get cells.reverse [] = .ok false :=
+      ndAnyNaN_eq m.get G cells.reverse (triples m.grid pt m.shape).reverse
+        (List.rel_reverse h3) [] [] List.Forall₂.nil (by
+          intro ix hix
+          apply hv.get_ok
+          rw [List.map_reverse, List.reverse_reverse, List.append_nil,
+            triples_shape m.grid m.shape pt hlen hlen2] at hix
+          exact hix)
+    rw [hnan]
+    simp only [Res.bind, Bool.false_eq_true, if_false]
     exact heval
 
 theorem forall₂_mem_right {β γ : Type} {R : β → γ → Prop} {l₁ : List β} {l₂ : List γ}
@@ -1445,31 +1495,24 @@ theorem validateN_grids (m : ND α) (hv : validateN m = .ok ()) (h2 : ∀ s ∈ 
   unfold validateN at hv
   simp only at hv
   rw [hn] at hv
-  obtain ⟨_, hA, hv⟩ := Res.bind_eq_ok hv
-  obtain ⟨_, hB, hv⟩ := Res.bind_eq_ok hv
-  obtain ⟨_, hC, hv⟩ := Res.bind_eq_ok hv
-  obtain ⟨g0, hD, hv⟩ := Res.bind_eq_ok hv
-  obtain ⟨gs, rest, e, hlen, hf⟩ := nd_checks_spec m.shape.length m.grid m.shape rfl hB hC
   have hpos : 0 < m.shape.length := List.length_pos_iff.mpr hne
-  -- the first grid is not empty, so the final check compares the grid count
-  have hg0 : g0.isEmpty = false := by
-    cases hgrid : m.grid with
-    | nil => rw [hgrid] at hD; simp [idx] at hD
-    | cons g gr =>
-      rw [hgrid] at hD hA
-      simp only [idx, List.getElem?_cons_zero, Res.ok.injEq] at hD
-      subst hD
-      obtain ⟨k, hk⟩ : ∃ k, m.shape.length = k + 1 := ⟨m.shape.length - 1, by omega⟩
-      rw [hk] at hA
-      simp only [ndCheckNonEmpty] at hA
-      cases hge : g.isEmpty with
-      | true => rw [hge] at hA; simp at hA
-      | false => rfl
-  rw [hg0] at hv
-  simp only [Bool.false_eq_true, if_false] at hv
+  by_cases hgd : ndGridLen m.grid ≠ m.shape.length
+  · rw [if_pos hgd] at hv; cases hv
+  rw [if_neg hgd] at hv
   have hgl : m.grid.length = m.shape.length := by
-    by_contra hne'
-    rw [if_pos hne'] at hv; cases hv
+    have hgd' : ndGridLen m.grid = m.shape.length := not_not.mp hgd
+    unfold ndGridLen at hgd'
+    cases hgrid : m.grid with
+    | nil => rw [hgrid] at hgd'; simp only at hgd'; omega
+    | cons g0 gr =>
+      rw [hgrid] at hgd'
+      simp only at hgd'
+      by_cases hg0 : g0.isEmpty = true
+      · rw [if_pos hg0] at hgd'; omega
+      · rw [if_neg hg0] at hgd'; exact hgd'
+  obtain ⟨_, hA, hv⟩ := Res.bind_eq_ok hv
+  obtain ⟨_, hB, hC⟩ := Res.bind_eq_ok hv
+  obtain ⟨gs, rest, e, hlen, hf⟩ := nd_checks_spec m.shape.length m.grid m.shape rfl hB hC
   have hrest : rest = [] := by
     have : (gs ++ rest).length = m.shape.length := by rw [← e]; exact hgl
     rw [List.length_append, hlen] at this
@@ -1495,6 +1538,7 @@ theorem validate1_ok {x f : List α} (hv : validate1 x f = .ok ()) :
         exact ⟨h2, not_not.mp h3⟩
 
 theorem validate3_ok {x y z : List α} {f : List (List (List α))} (hv : validate3 x y z f = .ok ()) :
+    (2 ≤ x.length ∧ 2 ≤ y.length ∧ 2 ≤ z.length) ∧
     strictlyIncreasing x = true ∧ strictlyIncreasing y = true ∧ strictlyIncreasing z = true ∧
       Rect3 f x.length y.length z.length := by
   unfold validate3 at hv
@@ -1502,15 +1546,364 @@ theorem validate3_ok {x y z : List α} {f : List (List (List α))} (hv : validat
   · cases hv
   · split at hv
     · cases hv
-    · split at hv
+    · rename_i hlen
+      split at hv
       · cases hv
-      · rename_i h2 h3
-        simp only [Bool.not_eq_true', Bool.not_eq_false, Bool.and_eq_true] at h2
-        simp only [Bool.not_eq_true', Bool.not_eq_false, Bool.and_eq_true, decide_eq_true_eq,
-          List.all_eq_true] at h3
-        refine ⟨h2.1.1, h2.1.2, h2.2, h3.1.1.symm, ?_⟩
-        intro r hr
-        exact ⟨h3.1.2 r hr, h3.2 r hr⟩
+      · split at hv
+        · cases hv
+        · rename_i h2 h3
+          simp only [Bool.not_eq_true', Bool.not_eq_false, Bool.and_eq_true] at h2
+          simp only [Bool.not_eq_true', Bool.not_eq_false, Bool.and_eq_true, decide_eq_true_eq,
+            List.all_eq_true] at h3
+          refine ⟨by omega, h2.1.1, h2.1.2, h2.2, h3.1.1.symm, ?_⟩
+          intro r hr
+          exact ⟨h3.1.2 r hr, h3.2 r hr⟩
+
+/-! ### no panics: the constructors, the cell lookup and the validated entry point are total -/
+
+/-- a result that is a value or an `Err`, never a panic or divergence -/
+def Res.Graceful {β : Type} (r : Res β) : Prop := (∃ v, r = .ok v) ∨ (∃ e, r = .err e)
+
+theorem findNearestIndex_ge_two (g : List α) (t : α) (hlen : 2 ≤ g.length) :
+    ∃ i, findNearestIndex g t = .ok i ∧ i < g.length := by
+  have hl : g.length - 1 < g.length := by omega
+  have hlast : g.getLast? = some (g[g.length - 1]'hl) := by
+    rw [getLast?_eq_getElem?]; exact List.getElem?_eq_getElem hl
+  unfold findNearestIndex
+  rw [if_neg (by omega), hlast]
+  simp only
+  split
+  · rw [if_neg (by omega)]; exact ⟨_, rfl, by omega⟩
+  · obtain ⟨r, hr, _, hrh, _, _⟩ := bsearch_spec g t (g.length + 1) 0 (g.length - 1) (by omega) hl (by omega)
+    have hr' : r < g.length := by omega
+    rw [hr]
+    simp only [Res.bind, idx, List.getElem?_eq_getElem hr']
+    split
+    · exact ⟨_, rfl, by omega⟩
+    · exact ⟨_, rfl, hr'⟩
+
+theorem findNearestIndex_graceful (g : List α) (t : α) :
+    (∃ i, findNearestIndex g t = .ok i ∧ i < g.length) ∨ (∃ e, findNearestIndex g t = .err e) := by
+  by_cases h2 : 2 ≤ g.length
+  · exact Or.inl (findNearestIndex_ge_two g t h2)
+  · right
+    unfold findNearestIndex
+    by_cases h1 : g.length = 1
+    · rw [if_pos h1]; exact ⟨_, rfl⟩
+    · rw [if_neg h1]
+      have : g = [] := List.length_eq_zero_iff.mp (by omega)
+      subst this
+      exact ⟨_, rfl⟩
+
+theorem validate2_graceful (x y : List α) (f : List (List α)) :
+    validate2 x y f = .ok () ∨ ∃ e, validate2 x y f = .err e := by
+  unfold validate2
+  split
+  · exact Or.inr ⟨_, rfl⟩
+  · split
+    · exact Or.inr ⟨_, rfl⟩
+    · split
+      · exact Or.inr ⟨_, rfl⟩
+      · split
+        · exact Or.inr ⟨_, rfl⟩
+        · exact Or.inl rfl
+
+theorem validate3_graceful (x y z : List α) (f : List (List (List α))) :
+    validate3 x y z f = .ok () ∨ ∃ e, validate3 x y z f = .err e := by
+  unfold validate3
+  split
+  · exact Or.inr ⟨_, rfl⟩
+  · split
+    · exact Or.inr ⟨_, rfl⟩
+    · split
+      · exact Or.inr ⟨_, rfl⟩
+      · split
+        · exact Or.inr ⟨_, rfl⟩
+        · exact Or.inl rfl
+
+/-- `Interpolator::interpolate` on a 2-D interpolator that `Interp2D::new` accepted: never a panic,
+whatever the point (any length, inside or outside) and the strategy -/
+theorem interpolate_d2_graceful (x y : List α) (f : List (List α)) (hv : validate2 x y f = .ok ())
+    (pt : List α) (s : Strategy) : (Interpolator.interpolate (.d2 x y f) pt s).Graceful := by
+  obtain ⟨hlx, hly, sx, sy, hr⟩ := (validate2_ok_iff x y f).mp hv
+  have hxne : x ≠ [] := by intro h; rw [h] at hlx; simp at hlx
+  have hyne : y ≠ [] := by intro h; rw [h] at hly; simp at hly
+  match pt with
+  | [p0, p1] =>
+    by_cases h : InAxis x p0 ∧ InAxis y p1
+    · by_cases hs : s = .linear
+      · subst hs
+        obtain ⟨lx, dx, ly, dy, _, _, _, _, hl⟩ := linear2_ok x y f p0 p1 ⟨sx, hlx⟩ ⟨sy, hly⟩ hr h.1 h.2
+        rw [interpolate_d2_in x y f p0 p1 h.1 h.2, hl]
+        exact Or.inl ⟨_, rfl⟩
+      · right
+        refine ⟨.strategy, ?_⟩
+        simp [Interpolator.interpolate, Interpolator.validateInputs, Interpolator.ndim, idx, Res.bind,
+          inAxis_true h.1, inAxis_true h.2, hs]
+    · rw [interpolate_d2_out x y f p0 p1 s hxne hyne h]
+      exact Or.inr ⟨_, rfl⟩
+  | [] => right; exact ⟨.pointLen, by simp [Interpolator.interpolate, Interpolator.validateInputs, Interpolator.ndim, Res.bind]⟩
+  | [_] => right; exact ⟨.pointLen, by simp [Interpolator.interpolate, Interpolator.validateInputs, Interpolator.ndim, Res.bind]⟩
+  | _ :: _ :: _ :: _ =>
+    right; exact ⟨.pointLen, by simp [Interpolator.interpolate, Interpolator.validateInputs, Interpolator.ndim, Res.bind]⟩
+
+theorem interpolate_d3_graceful (x y z : List α) (f : List (List (List α)))
+    (hv : validate3 x y z f = .ok ()) (pt : List α) (s : Strategy) :
+    (Interpolator.interpolate (.d3 x y z f) pt s).Graceful := by
+  obtain ⟨⟨hlx, hly, hlz⟩, sx, sy, sz, hr⟩ := validate3_ok hv
+  have hxne : x ≠ [] := by intro h; rw [h] at hlx; simp at hlx
+  have hyne : y ≠ [] := by intro h; rw [h] at hly; simp at hly
+  have hzne : z ≠ [] := by intro h; rw [h] at hlz; simp at hlz
+  match pt with
+  | [p0, p1, p2] =>
+    by_cases h : InAxis x p0 ∧ InAxis y p1 ∧ InAxis z p2
+    · by_cases hs : s = .linear
+      · subst hs
+        obtain ⟨lx, dx, ly, dy, lz, dz, _, _, _, _, _, _, hl⟩ :=
+          linear3_ok x y z f p0 p1 p2 ⟨sx, hlx⟩ ⟨sy, hly⟩ ⟨sz, hlz⟩ hr h.1 h.2.1 h.2.2
+        rw [interpolate_d3_in x y z f p0 p1 p2 h.1 h.2.1 h.2.2, hl]
+        exact Or.inl ⟨_, rfl⟩
+      · right
+        refine ⟨.strategy, ?_⟩
+        simp [Interpolator.interpolate, Interpolator.validateInputs, Interpolator.ndim, idx, Res.bind,
+          inAxis_true h.1, inAxis_true h.2.1, inAxis_true h.2.2, hs]
+    · rw [interpolate_d3_out x y z f p0 p1 p2 s hxne hyne hzne h]
+      exact Or.inr ⟨_, rfl⟩
+  | [] => right; exact ⟨.pointLen, by simp [Interpolator.interpolate, Interpolator.validateInputs, Interpolator.ndim, Res.bind]⟩
+  | [_] => right; exact ⟨.pointLen, by simp [Interpolator.interpolate, Interpolator.validateInputs, Interpolator.ndim, Res.bind]⟩
+  | [_, _] => right; exact ⟨.pointLen, by simp [Interpolator.interpolate, Interpolator.validateInputs, Interpolator.ndim, Res.bind]⟩
+  | _ :: _ :: _ :: _ :: _ =>
+    right; exact ⟨.pointLen, by simp [Interpolator.interpolate, Interpolator.validateInputs, Interpolator.ndim, Res.bind]⟩
+
+theorem ndCheckNonEmpty_graceful : ∀ (n : Nat) (grid : List (List α)), n ≤ grid.length →
+    ndCheckNonEmpty n grid = .ok () ∨ ∃ e, ndCheckNonEmpty n grid = .err e := by
+  intro n
+  induction n with
+  | zero => intro grid _; exact Or.inl rfl
+  | succ n ih =>
+    intro grid h
+    cases grid with
+    | nil => simp at h
+    | cons g gs =>
+      simp only [ndCheckNonEmpty]
+      split
+      · exact Or.inr ⟨_, rfl⟩
+      · exact ih gs (by simpa using h)
+
+theorem ndCheckSorted_graceful : ∀ (n : Nat) (grid : List (List α)), n ≤ grid.length →
+    ndCheckSorted n grid = .ok () ∨ ∃ e, ndCheckSorted n grid = .err e := by
+  intro n
+  induction n with
+  | zero => intro grid _; exact Or.inl rfl
+  | succ n ih =>
+    intro grid h
+    cases grid with
+    | nil => simp at h
+    | cons g gs =>
+      simp only [ndCheckSorted]
+      split
+      · exact Or.inr ⟨_, rfl⟩
+      · exact ih gs (by simpa using h)
+
+theorem ndCheckShape_graceful : ∀ (n : Nat) (grid : List (List α)) (shape : List Nat), n ≤ grid.length →
+    n ≤ shape.length →
+    ndCheckShape n grid shape = .ok () ∨ ∃ e, ndCheckShape n grid shape = .err e := by
+  intro n
+  induction n with
+  | zero => intro grid shape _ _; exact Or.inl rfl
+  | succ n ih =>
+    intro grid shape h h'
+    cases grid with
+    | nil => simp at h
+    | cons g gs =>
+      cases shape with
+      | nil => simp at h'
+      | cons s ss =>
+        simp only [ndCheckShape]
+        split
+        · exact Or.inr ⟨_, rfl⟩
+        · exact ih gs ss (by simpa using h) (by simpa using h')
+
+theorem ndGridLen_le (grid : List (List α)) : ndGridLen grid ≤ grid.length := by
+  unfold ndGridLen
+  cases grid with
+  | nil => simp
+  | cons g gs =>
+    simp only
+    split
+    · omega
+    · exact le_refl _
+
+/-- `InterpND::new` never panics: a value or an `Err` for every grid vector and every shape -/
+theorem validateN_graceful (m : ND α) : validateN m = .ok () ∨ ∃ e, validateN m = .err e := by
+  unfold validateN
+  simp only
+  by_cases hgd : ndGridLen m.grid ≠ m.ndim
+  · rw [if_pos hgd]; exact Or.inr ⟨_, rfl⟩
+  · rw [if_neg hgd]
+    have hgd' : ndGridLen m.grid = m.ndim := not_not.mp hgd
+    have h1 : m.ndim ≤ m.grid.length := by rw [← hgd']; exact ndGridLen_le m.grid
+    have h2 : m.ndim ≤ m.shape.length := by
+      unfold ND.ndim; split
+      · omega
+      · exact le_refl _
+    rcases ndCheckNonEmpty_graceful m.ndim m.grid h1 with hA | ⟨e, hA⟩
+    · rcases ndCheckSorted_graceful m.ndim m.grid h1 with hB | ⟨e, hB⟩
+      · rcases ndCheckShape_graceful m.ndim m.grid m.shape h1 h2 with hC | ⟨e, hC⟩
+        · left; simp [hA, hB, hC, Res.bind]
+        · right; exact ⟨e, by simp [hA, hB, hC, Res.bind]⟩
+      · right; exact ⟨e, by simp [hA, hB, Res.bind]⟩
+    · right; exact ⟨e, by simp [hA, Res.bind]⟩
+
+theorem linspace_ok (x0 xend : α) (n : Nat) : ∃ xs, linspace x0 xend n = .ok xs := by
+  cases n with
+  | zero => exact ⟨_, rfl⟩
+  | succ m => exact ⟨_, rfl⟩
+
+/-- `InterpolationSpeedGradeModel::new` never panics, whatever the bounds and bin counts -/
+theorem new_graceful (underlying : α → α → α) (su : SpeedUnit) (s0 s1 : α) (sb : Nat) (gu : GradeUnit)
+    (g0 g1 : α) (gb : Nat) (ru : EnergyRateUnit) :
+    (SpeedGradeModel.new underlying su s0 s1 sb gu g0 g1 gb ru).Graceful := by
+  obtain ⟨xs, hx⟩ := linspace_ok s0 s1 sb
+  obtain ⟨ys, hy⟩ := linspace_ok g0 g1 gb
+  unfold SpeedGradeModel.new
+  rw [hx, hy]
+  simp only [Res.bind]
+  rcases validate2_graceful xs ys (List.map (fun s => List.map (fun g => gridValue ru (underlying s g)) ys) xs)
+    with hv | ⟨e, hv⟩
+  · rw [hv]; exact Or.inl ⟨_, rfl⟩
+  · rw [hv]; exact Or.inr ⟨_, rfl⟩
+
+/-- fewer than two bins on an axis: `new` returns an error -/
+theorem new_rejects_short (underlying : α → α → α) (su : SpeedUnit) (s0 s1 : α) (sb : Nat) (gu : GradeUnit)
+    (g0 g1 : α) (gb : Nat) (ru : EnergyRateUnit) (h : sb < 2 ∨ gb < 2) :
+    ∃ e, SpeedGradeModel.new underlying su s0 s1 sb gu g0 g1 gb ru = .err e := by
+  rcases new_graceful underlying su s0 s1 sb gu g0 g1 gb ru with ⟨m, hm⟩ | he
+  · obtain ⟨_, _, _, _, _, _, _, _, _, h1, h2⟩ := new_inv underlying su s0 s1 sb gu g0 g1 gb ru m hm
+    omega
+  · exact he
+
+/-! ### `load_prediction_model` -/
+
+theorem Res.ok_bind {β γ : Type} (v : β) (f : β → Res γ) : (Res.ok v).bind f = f v := rfl
+theorem Res.err_bind {β γ : Type} (e : Err) (f : β → Res γ) : (Res.err e : Res β).bind f = .err e := rfl
+
+theorem fillRow_pure (u : α → α) : ∀ (ys : List α), fillRow (fun g => (.ok (u g) : Res α)) ys = .ok (ys.map u) := by
+  intro ys
+  induction ys with
+  | nil => rfl
+  | cons y ys ih => simp [fillRow, ih, Res.bind]
+
+theorem fillGrid_pure (u : α → α → α) (ys : List α) : ∀ (xs : List α),
+    fillGrid (fun s g => (.ok (u s g) : Res α)) xs ys = .ok (xs.map fun s => ys.map fun g => u s g) := by
+  intro xs
+  induction xs with
+  | nil => rfl
+  | cons x xs ih => simp [fillGrid, fillRow_pure (u x) ys, ih, Res.bind]
+
+/-- the sweep over a model that always answers: a value, at most the start value and at most every
+swept rate -/
+theorem findMinEnergyRateFrom_spec (m : PModel α) (hm : ∀ s su g gu, ∃ r u, m s su g gu = .ok (r, u)) :
+    ∀ (is : List Nat) (acc : α), ∃ v, findMinEnergyRateFrom m is acc = .ok v ∧ v ≤ acc ∧
+      ∀ i ∈ is, ∀ r u, m (ofNat i) .milesPerHour (zero : α) .percent = .ok (r, u) → v ≤ r := by
+  intro is
+  induction is with
+  | nil => intro acc; exact ⟨acc, rfl, le_refl _, by intro i hi; cases hi⟩
+  | cons i is ih =>
+    intro acc
+    obtain ⟨r, u, hr⟩ := hm (ofNat i) .milesPerHour (zero : α) .percent
+    obtain ⟨v, hv, hle, hall⟩ := ih (if r < acc then r else acc)
+    refine ⟨v, ?_, ?_, ?_⟩
+    · simp only [findMinEnergyRateFrom, hr]; exact hv
+    · split at hle
+      · exact le_trans hle (le_of_lt ‹_›)
+      · exact hle
+    · intro j hj r' u' hr'
+      rcases List.mem_cons.mp hj with rfl | hj'
+      · rw [hr] at hr'
+        cases hr'
+        split at hle
+        · exact hle
+        · exact le_trans hle (not_lt.mp ‹_›)
+      · exact hall j hj' r' u' hr'
+
+theorem smartcorePredict_total (rf : α → α → α) (su : SpeedUnit) (gu : GradeUnit) (ru : EnergyRateUnit) :
+    ∀ s qsu g qgu, ∃ r u, smartcorePredict rf su gu ru s qsu g qgu = .ok (r, u) :=
+  fun _ _ _ _ => ⟨_, _, rfl⟩
+
+/-- the `Smartcore` arm -/
+theorem load_smartcore_eq (rf : α → α → α) (su : SpeedUnit) (gu : GradeUnit) (ru : EnergyRateUnit)
+    (ideal adj : Option α) :
+    loadPredictionModel rf true .smartcore su gu ru ideal adj =
+      ((match ideal with
+        | some x => (.ok x : Res α)
+        | none => findMinEnergyRate (smartcorePredict rf su gu ru)).bind fun idealRate =>
+        .ok { model := smartcorePredict rf su gu ru, speedUnit := su, gradeUnit := gu, energyRateUnit := ru,
+              idealEnergyRate := idealRate,
+              realWorldEnergyAdjustment := match adj with | some a => a | none => one }) := by
+  unfold loadPredictionModel
+  rfl
+
+/-- the `Interpolate` arm over a random forest is `InterpolationSpeedGradeModel::new` over that forest,
+with the configured speed bounds / bins and grade bounds / bins in their places -/
+theorem load_interpolate_smartcore_eq (rf : α → α → α) (su : SpeedUnit) (gu : GradeUnit)
+    (ru : EnergyRateUnit) (s0 s1 : α) (sb : Nat) (g0 g1 : α) (gb : Nat) (ideal adj : Option α) :
+    loadPredictionModel rf true (.interpolate .smartcore s0 s1 sb g0 g1 gb) su gu ru ideal adj =
+      (SpeedGradeModel.new rf su s0 s1 sb gu g0 g1 gb ru).bind fun m =>
+        (match ideal with
+         | some x => (.ok x : Res α)
+         | none => findMinEnergyRate m.predict).bind fun idealRate =>
+          .ok { model := m.predict, speedUnit := su, gradeUnit := gu, energyRateUnit := ru,
+                idealEnergyRate := idealRate,
+                realWorldEnergyAdjustment := match adj with | some a => a | none => one } := by
+  obtain ⟨v, hv, _, _⟩ := findMinEnergyRateFrom_spec (smartcorePredict rf su gu ru)
+    (smartcorePredict_total rf su gu ru) sweepSpeeds f64Max
+  obtain ⟨xs, hx⟩ := linspace_ok s0 s1 sb
+  obtain ⟨ys, hy⟩ := linspace_ok g0 g1 gb
+  have hfun : ∀ (i a : α), (fun (s g : α) =>
+      (Record.predict (⟨smartcorePredict rf su gu ru, su, gu, ru, i, a⟩ : Record α)
+        s su g gu (one : α) ru.associatedDistanceUnit).bind fun e => (.ok e.1 : Res α))
+      = fun s g => .ok ((createEnergy (rf s g * a) ru (one : α) ru.associatedDistanceUnit).1) := by
+    intro i a
+    funext s g
+    simp [Record.predict, smartcorePredict, Res.bind, speed_convert_self, grade_convert_self]
+  unfold loadPredictionModel
+  simp only [loadPredictionModel, if_true, findMinEnergyRate, hv, Res.ok_bind, hx, hy]
+  rw [hfun, fillGrid_pure]
+  unfold SpeedGradeModel.new gridValue
+  simp only [hx, hy, Res.ok_bind]
+  cases hval : validate2 xs ys
+    (List.map (fun s => List.map (fun g => (createEnergy (rf s g * one) ru (one : α) ru.associatedDistanceUnit).1) ys) xs) <;> rfl
+
+/-- the model type names ONNX somewhere (the feature is off in this build) -/
+def ModelType.hasOnnx : ModelType α → Bool
+  | .smartcore => false
+  | .onnx => true
+  | .interpolate u _ _ _ _ _ _ => u.hasOnnx
+
+theorem load_unreadable (rf : α → α → α) : ∀ (mt : ModelType α) (su : SpeedUnit) (gu : GradeUnit)
+    (ru : EnergyRateUnit) (ideal adj : Option α),
+    loadPredictionModel rf false mt su gu ru ideal adj = .err .build := by
+  intro mt
+  induction mt with
+  | smartcore => intro su gu ru ideal adj; unfold loadPredictionModel; rfl
+  | onnx => intro su gu ru ideal adj; unfold loadPredictionModel; rfl
+  | interpolate u s0 s1 sb g0 g1 gb ih =>
+    intro su gu ru ideal adj
+    unfold loadPredictionModel
+    simp only [ih su gu ru none none, Res.err_bind]
+
+theorem load_onnx (rf : α → α → α) (fileOk : Bool) : ∀ (mt : ModelType α), mt.hasOnnx = true →
+    ∀ (su : SpeedUnit) (gu : GradeUnit) (ru : EnergyRateUnit) (ideal adj : Option α),
+    loadPredictionModel rf fileOk mt su gu ru ideal adj = .err .build := by
+  intro mt
+  induction mt with
+  | smartcore => intro h; cases h
+  | onnx => intro _ su gu ru ideal adj; unfold loadPredictionModel; rfl
+  | interpolate u s0 s1 sb g0 g1 gb ih =>
+    intro h su gu ru ideal adj
+    unfold loadPredictionModel
+    simp only [ih h su gu ru none none, Res.err_bind]
 
 end
 end Interp
